@@ -23,7 +23,7 @@ def main():
     names = [unesc(m.group(1)) for m in re.finditer(r'\(\s*"((?:[^"\\]|\\.)*)"\s*,\s*&\[', open(os.path.join(d, 'src', 'emoji.rs'), encoding='utf-8').read())]
     bn = [unesc(m.group(1)) for m in re.finditer(r'\(\s*"((?:[^"\\]|\\.)*)"\s*,\s*&\[', open(os.path.join(d, 'src', 'bn_emojis.rs'), encoding='utf-8').read())]
     os.makedirs(os.path.dirname(out), exist_ok=True)
-    tmp = out + '.%d.tmp' % os.getpid()
+    tmp = out + '.%d.%d.tmp' % (os.getpid(), __import__('threading').get_ident())
     json.dump({'emoticons': emot, 'names': names, 'bengali': bn}, open(tmp, 'w'), ensure_ascii=False)
     os.replace(tmp, out)
     return len(emot), len(names), len(bn)
